@@ -198,16 +198,26 @@ PROPS["C12"] = dict(
     pkg="c12",
     rule=("parse part: 1..6 inputs from the C04 generators (token soups, valid programs followed by unread tokens, mutated valid programs: "
           "weighted toward inputs where parsing stops with tokens unread) are parsed 1..20 times each in one process (value generator "
-          "Generate / GenerateWithMap, generic parser). Invariant over the runtime goroutine profile: after a grace period (poll up to 3 s, "
-          "then the same goroutine id must be present in two snapshots 1 s apart) no goroutine that was started during the case has a frame "
-          "in github.com/hneemann/parser2/... or github.com/hneemann/iterator; a leak is identified by the entry function of the leaked "
-          "goroutine. Non-trivial: at least one input was rejected (parsing stopped early); distinct = configuration + inputs."),
-    assumptions=["goroutines are attributed to the library by their stack frames; goroutines left by earlier failing cases of the same process are excluded by id"],
+          "Generate / GenerateWithMap, generic parser). pipeline part: pipelines from the C06 generator (sources up to 1500 elements, up to 4 "
+          "stages, cost profiles that force parallel execution, merge, multiUse, 25% with a failing element) weighted toward consumers that "
+          "stop early (first, top(n).size(), present, indexWhere) and toward lazy results that the host forces, drops or consumes for 3 "
+          "elements only, evaluated 1..3 times. Invariant over the runtime goroutine profile: after a grace period (poll up to 3 s; what is "
+          "left must be present with the same goroutine id in a confirmation snapshot, or be blocked and unchanged for 400 ms) no goroutine "
+          "that was started during the case has a frame in github.com/hneemann/parser2/... or github.com/hneemann/iterator; a leak is "
+          "identified by the entry function of the leaked goroutine: iterator.initParallel/MapParallel workers are attributed to the open "
+          "finding F11, iterator.ToChan producers to F12 (both in the dependency), anything else is a violation. The long-source exemplar "
+          "of F12 runs once per tier in a short-lived process of its own. Non-trivial: (parse) an input was rejected, parsing stopped "
+          "early; (pipeline) a goroutine-backed stage and a consumer that stops early or an error path; distinct = inputs / pipeline text."),
+    assumptions=["goroutines are attributed to the library by their stack frames; goroutines left by earlier cases of the same process are excluded by id",
+                 "background CPU work is visible as goroutines that are still running"],
     jobs=[
         dict(name="parse", run="^TestPropParse$", kind="rapid", shards=16, checks={"quick": 50000, "thorough": 2000000},
              guard={"quick": 900, "thorough": 7200}),
+        dict(name="pipelines", run="^TestPropPipelines$", kind="rapid", shards=16, checks={"quick": 3200, "thorough": 60000},
+             guard={"quick": 900, "thorough": 7200}),
+        dict(name="known_F12", run="^TestKnownF12$", kind="plain", shards=1, guard={"quick": 300, "thorough": 300}),
     ],
-    min_class_fraction={"parse_some_input_rejected": 0.3},
+    min_class_fraction={"parse_some_input_rejected": 0.3, "pipeline_goroutine_backed_stage": 0.02},
 )
 
 
